@@ -161,7 +161,18 @@ def _rule_R6(text, args):
     return text, n
 
 
-RULES = {"R6": _rule_R6, "R14": _rule_R14, "R13": _rule_R13, "R1": _rule_R1, "R4": _rule_R4, "R4rev": _rule_R4rev, "R11": _rule_R11, "R8": _rule_R8, "R7": _rule_R7,
+def _rule_R15(text, args):
+    # fn f(_: T)  ->  fn f(_unusedN: T)     (Verus: a parameter must be an identifier)
+    cnt = [0]
+
+    def rep(m):
+        cnt[0] += 1
+        return "%s_unused%d:" % (m.group(1), cnt[0])
+    # only inside the parameter list: between the first '(' and the body '{' - approximated by `( _:` / `, _:`
+    return re.subn(r"([(,]\s*)_\s*:", rep, text)
+
+
+RULES = {"R15": _rule_R15, "R6": _rule_R6, "R14": _rule_R14, "R13": _rule_R13, "R1": _rule_R1, "R4": _rule_R4, "R4rev": _rule_R4rev, "R11": _rule_R11, "R8": _rule_R8, "R7": _rule_R7,
          "R9": _rule_R9, "R12": _rule_R12}
 
 
